@@ -14,6 +14,7 @@ Some(T) }` is admitted as `Option<u32>` and Rust's `Some(5)` is the script's `No
 -/
 import RotoV.Model.BoundaryGate
 import RotoV.Lemmas.BoundaryValues
+import RotoV.Lemmas.BoundaryAbi
 
 namespace RotoV.C05
 
@@ -288,6 +289,73 @@ theorem ident_only_gate_reinterprets :
     ∧ (indexOf .Some rotoOptionVariants 0).bind (nameAt [(.None, []), (.Some, [0])]) = some .None
     ∧ (indexOf .Some [(.None, []), (.Some, [0])] 0).bind (nameAt rotoOptionVariants) = some .None := by
   decide
+
+/-! ## What is admitted has the layout Rust gives it -/
+
+/-- **`admitted_mir_type`** (∀ Rust types, ∀ signature types of any nesting).  The MIR type the script
+    compiles an admitted signature type to is the MIR type of the boundary type (`toMTy`), the one
+    the layout / placement / ABI theorems of `Props/C05` are about. -/
+theorem admitted_mir_type (lay : Nat → Layout) (r : RTy) : ∀ (t : STy), t.WF = true → r.LayOk lay →
+    gate gateArms r t = true → scriptMTy lay t = toMTy r.toBTy := by
+  induction r with
+  | unit =>
+    intro t _ _ h
+    unfold gate at h
+    simp at h
+    subst h; rfl
+  | prim p =>
+    intro t hw _ h
+    obtain ⟨d, rfl⟩ := gate_prim_inv h
+    simp [STy.WF, STy.WF.declOk] at hw
+    subst hw; rfl
+  | val id l =>
+    intro t hw hl h
+    obtain ⟨s, i, rfl⟩ := gate_val_inv hw h
+    simp [RTy.LayOk] at hl
+    simp [scriptMTy, RTy.toBTy, toMTy, hl]
+  | option r ih =>
+    intro t hw hl h
+    obtain ⟨d, a, rfl, hg⟩ := gate_option_inv h
+    simp [STy.WF, STy.WF.declOk] at hw
+    obtain ⟨⟨hd, _⟩, ha⟩ := hw
+    subst hd
+    simp [scriptMTy, RTy.toBTy, toMTy, ih a ha hl hg]
+  | list r ih =>
+    intro t hw hl h
+    obtain ⟨d, a, rfl, hg⟩ := gate_list_inv h
+    simp [STy.WF, STy.WF.declOk] at hw
+    obtain ⟨⟨hd, _⟩, ha⟩ := hw
+    subst hd
+    simp [scriptMTy, RTy.toBTy, toMTy]
+  | result r1 r2 ih1 ih2 =>
+    intro t hw hl h
+    obtain ⟨d, a, b, rfl, hg1, hg2⟩ := gate_result_inv h
+    simp [STy.WF, STy.WF.declOk] at hw
+    obtain ⟨⟨⟨hd, _⟩, ha⟩, hb⟩ := hw
+    subst hd
+    simp [scriptMTy, RTy.toBTy, toMTy, ih1 a ha hl.1 hg1, ih2 b hb hl.2 hg2]
+  | verdict r1 r2 ih1 ih2 =>
+    intro t hw hl h
+    obtain ⟨d, a, b, rfl, hg1, hg2⟩ := gate_verdict_inv h
+    simp [STy.WF, STy.WF.declOk] at hw
+    obtain ⟨⟨⟨hd, _⟩, ha⟩, hb⟩ := hw
+    subst hd
+    simp [scriptMTy, RTy.toBTy, toMTy, ih1 a ha hl.1 hg1, ih2 b hb hl.2 hg2]
+
+/-- **`admitted_layout_agrees`** (∀ host layouts, ∀ registrations, ∀ admitted pairs).  For every
+    signature type the gate admits, `Pool::layout_of` of the type as the script compiled it is
+    rustc's layout of the transformed Rust type. -/
+theorem admitted_layout_agrees (h : HostLayouts) (hh : h.WF) (lay : Nat → Layout) (r : RTy) (t : STy)
+    (hw : t.WF = true) (hl : r.LayOk lay) (hr : r.toBTy.WF) (hg : gate gateArms r t = true) :
+    layoutOf h (scriptMTy lay t) = some (rustLayout h r.toBTy) := by
+  rw [admitted_mir_type lay r t hw hl hg]
+  exact layout_agrees' h hh r.toBTy hr
+
+
+/-- not vacuous, and false for what the gate refuses: the script's swapped `Option[u32]` compiles
+    to an enum whose first variant has no payload -/
+example : scriptMTy (fun _ => ⟨4, 4⟩) swappedOption ≠ toMTy (.option (.prim (.Int .Unsigned .I32))) := by
+  simp [scriptMTy, swappedOption, toMTy, instVariants, defaultOption]
 
 /-! ## Values read with a declaration's own variant table -/
 
